@@ -82,6 +82,7 @@ pub fn vocab(lang: &str) -> Vec<&'static str> {
             "metal", "mailbox", "yellow", "detector", "the", "of", "straße", "uber", "cafe", "ö", "o\u{308}", "möbel", "mo\u{308}bel", "naïve", "e\u{301}", "été", "e\u{301}te\u{301}",
             "bijoux dore\u{301}s", "ijs", "mijn u\u{308}ber", "lijke\u{301}", "auto\u{ad}mat", "automat", "\u{ad}soft", "hy\u{ad}\u{ad}phen", "end\u{ad}",
             "col\u{b7}leccio", "paral\u{b7}lel", "c++11", "snake_case_name", "o'clock", "c#sharp", "l\u{b7}l",
+            "a\u{302}\u{301}b", "la\u{302}\u{301}u", "\u{1ea5}b",
         ],
         "xs" => vec![
             "één", "óók", "kopje", "kopjes", "koffie", "fietsen", "fiets", "lopen", "loop", "huizen", "huis", "mogelijkheid", "mogelijkheden", "vrijheid", "Één", "ÉÉN",
@@ -90,6 +91,7 @@ pub fn vocab(lang: &str) -> Vec<&'static str> {
         "xr" => vec![
             "gås", "ga\u{30a}s", "GÅS", "GA\u{30a}S", "gaas", "blå", "bla\u{30a}", "café", "cafe", "CAFÉ", "cafe\u{301}", "straße", "strasse", "STRASSE", "GROẞ", "groß", "smørrebrød", "smoerrebroed", "Øl", "øl", "été", "ete", "é", "ß", "ø",
             "metal", "mailbox", "yellow", "detector", "the", "of", "über", "u\u{308}ber", "fußball", "fussball", "résumé", "resume",
+            "schule", "fisch", "deutsch", "SCHULE", "tschüs",
         ],
         "en" => vec![
             "the", "a", "an", "of", "to", "and", "in", "for", "with", "on", "at", "by", "metal", "mailbox", "yellow",
